@@ -720,34 +720,34 @@ Proof. reflexivity. Qed.
 
 Local Open Scope N_scope.
 
-Example ex_zero : to_f64_bits (from_u64 0) = 0.
+Example ex_tof64_zero : to_f64_bits (from_u64 0) = 0.
 Proof. vm_compute. reflexivity. Qed.
-Example ex_one : to_f64_bits (from_u64 1) = 0x3ff0000000000000.
+Example ex_tof64_one : to_f64_bits (from_u64 1) = 0x3ff0000000000000.
 Proof. vm_compute. reflexivity. Qed.
 (* 2^53 + 1 is a tie: to even, 2^53 *)
-Example ex_tie_even : to_f64_bits (from_u64 (2 ^ 53 + 1)) = 0x4340000000000000.
+Example ex_tof64_tie_even : to_f64_bits (from_u64 (2 ^ 53 + 1)) = 0x4340000000000000.
 Proof. vm_compute. reflexivity. Qed.
 (* 2^53 + 3 is a tie: to even, 2^53 + 4 *)
-Example ex_tie_up : to_f64_bits (from_u64 (2 ^ 53 + 3)) = 0x4340000000000002.
+Example ex_tof64_tie_up : to_f64_bits (from_u64 (2 ^ 53 + 3)) = 0x4340000000000002.
 Proof. vm_compute. reflexivity. Qed.
 (* two digits: 2^64 + 1 rounds down, 2^64 + 2^11 + 1 rounds up *)
-Example ex_two_digits_dn : to_f64_bits (from_u128 (2 ^ 64 + 1)) = 0x43f0000000000000.
+Example ex_tof64_two_digits_dn : to_f64_bits (from_u128 (2 ^ 64 + 1)) = 0x43f0000000000000.
 Proof. vm_compute. reflexivity. Qed.
-Example ex_two_digits_up : to_f64_bits (from_u128 (2 ^ 64 + 2 ^ 11 + 1)) = 0x43f0000000000001.
+Example ex_tof64_two_digits_up : to_f64_bits (from_u128 (2 ^ 64 + 2 ^ 11 + 1)) = 0x43f0000000000001.
 Proof. vm_compute. reflexivity. Qed.
-Example ex_max_pow : to_f64_bits (nat_shl (from_u64 1) 1023) = 0x7fe0000000000000.
+Example ex_tof64_max_pow : to_f64_bits (nat_shl (from_u64 1) 1023) = 0x7fe0000000000000.
 Proof. vm_compute. reflexivity. Qed.
-Example ex_inf : to_f64_bits (nat_shl (from_u64 1) 1024) = F64_INF_BITS.
+Example ex_tof64_inf : to_f64_bits (nat_shl (from_u64 1) 1024) = F64_INF_BITS.
 Proof. vm_compute. reflexivity. Qed.
 (* the rounding carries into the overflow *)
-Example ex_carry_inf : to_f64_bits (nat_shl (from_u64 (2 ^ 54 - 1)) 970) = F64_INF_BITS.
+Example ex_tof64_carry_inf : to_f64_bits (nat_shl (from_u64 (2 ^ 54 - 1)) 970) = F64_INF_BITS.
 Proof. vm_compute. reflexivity. Qed.
-Example ex_nan : to_f64_bits NAN = F64_NAN_BITS.
+Example ex_tof64_nan : to_f64_bits NAN = F64_NAN_BITS.
 Proof. vm_compute. reflexivity. Qed.
 
 (** the hypotheses of the theorems are satisfiable, and Flocq's conversion
     computes the same patterns *)
-Example ex_inv : Inv (nat_shl (from_u64 (2 ^ 54 - 1)) 970) /\
+Example ex_tof64_inv : Inv (nat_shl (from_u64 (2 ^ 54 - 1)) 970) /\
   val (nat_shl (from_u64 (2 ^ 54 - 1)) 970) = Some ((2 ^ 54 - 1) * 2 ^ 970).
 Proof.
   destruct (from_u64_spec (2 ^ 54 - 1) ltac:(reflexivity)) as [HI HV].
@@ -755,7 +755,7 @@ Proof.
   split; [exact HI'|]. vm_compute. reflexivity.
 Qed.
 
-Example ex_flocq_tie : bits_of_b64 (f64_of_N (2 ^ 53 + 1)) = 0x4340000000000000%Z.
+Example ex_tof64_flocq_tie : bits_of_b64 (f64_of_N (2 ^ 53 + 1)) = 0x4340000000000000%Z.
 Proof. vm_compute. reflexivity. Qed.
-Example ex_flocq_carry_inf : bits_of_b64 (f64_of_N ((2 ^ 54 - 1) * 2 ^ 970)) = Z.of_N F64_INF_BITS.
+Example ex_tof64_flocq_carry_inf : bits_of_b64 (f64_of_N ((2 ^ 54 - 1) * 2 ^ 970)) = Z.of_N F64_INF_BITS.
 Proof. vm_compute. reflexivity. Qed.
